@@ -1009,7 +1009,7 @@ def plan(tier):
             for g in (1, 2, 3):
                 add("trim", dict(N=n, G=g, times="weak", flags=AS),
                     [V(MODES[k % 2], k) for k in QS], 8)
-        add("trim", dict(N=4, G=2, times="weak", flags=AS), [V("known", 0)], 80)
+        add("trim", dict(N=4, G=2, times="id", flags=AS), [V("known", 0), V("unknown", 4)], 20)
         add("trim", dict(N=4, G=3, times="id", flags=AS), [V("unknown", 1)], 60)
         add("trim", dict(N=5, G=2, times="id", flags=AS), [V("known", 3)], 60)
         add("trim", dict(N=3, G=3, times="weak", flags=AS, grid="frac", timescale="quarter"),
